@@ -6,10 +6,16 @@ PATH = os.path.join(env.VERIF, 'known_findings.json')
 
 
 def load():
-    if not os.path.exists(PATH):
-        return []
-    with open(PATH) as f:
-        return json.load(f)['findings']
+    out = []
+    if os.path.exists(PATH):
+        with open(PATH) as f:
+            out += json.load(f)['findings']
+    # per-property proposal files (merged into known_findings.json before release)
+    import glob
+    for p in sorted(glob.glob(os.path.join(env.VERIF, 'known_findings.d', '*.json'))):
+        with open(p) as f:
+            out += json.load(f)['findings']
+    return out
 
 
 def known_for(prop_id):
